@@ -87,6 +87,7 @@ type TermCtx struct {
 	vars    []*Term  // declared variables in order
 	varByNm map[string]*Term
 	log     []string // every definition/assert sent (for portfolio scripts)
+	newVars []*Term
 }
 
 func newTermCtx() *TermCtx {
@@ -103,6 +104,7 @@ func (c *TermCtx) Var(name string, sort Sort) *Term {
 	t := &Term{op: "var", sort: sort, ref: smtName(name)}
 	c.varByNm[name] = t
 	c.vars = append(c.vars, t)
+	c.newVars = append(c.newVars, t)
 	c.pending = append(c.pending, fmt.Sprintf("(declare-const %s %s)", t.ref, sort))
 	return t
 }
@@ -218,6 +220,10 @@ func (c *TermCtx) Mul(a, b *Term) *Term {
 			return a
 		}
 	}
+	// fold nested constant factors: (x*c1)*c2 = x*(c1*c2)
+	if b.IsConst() && a.op == "*" && len(a.args) == 2 && a.args[1].IsConst() {
+		return c.Mul(a.args[0], mkInt(new(big.Int).Mul(a.args[1].val, b.val)))
+	}
 	t := c.mk("*", SInt, a, b)
 	if a.bits > 0 && b.bits > 0 {
 		t.bits = a.bits + b.bits
@@ -237,6 +243,25 @@ func (c *TermCtx) floorDivPos(a, b *Term) *Term {
 	}
 	if b.IsConst() && b.val.Cmp(big.NewInt(1)) == 0 {
 		return a
+	}
+	// floor(floor(x/p)/k) = floor(x/(p*k)) for p, k > 0; when x = y*(k*m) this is floor(y*m/p).
+	// (Sound for every integer x; p > 0 is guaranteed by the caller of the inner division.)
+	if b.IsConst() && b.val.Sign() > 0 && a.op == "div" && len(a.args) == 2 {
+		x, p := a.args[0], a.args[1]
+		if p.pos || (p.IsConst() && p.val.Sign() > 0) {
+			if x.op == "*" && len(x.args) == 2 && x.args[1].IsConst() {
+				k := x.args[1].val
+				if k.Sign() > 0 {
+					q, r := new(big.Int).QuoRem(k, b.val, new(big.Int))
+					if r.Sign() == 0 {
+						return c.floorDivPos(c.Mul(x.args[0], mkInt(q)), p)
+					}
+				}
+			}
+			if p.IsConst() {
+				return c.floorDivPos(x, mkInt(new(big.Int).Mul(p.val, b.val)))
+			}
+		}
 	}
 	t := c.mk("div", SInt, a, b)
 	t.bits = a.bits
